@@ -254,6 +254,31 @@ def check_bqm(ctx, r, lines, expect, meta):
             ctx.fail('property', 'BQM ' + name, cls_in, f'round trip changed the model: {got!r} != {want!r}',
                      repro=PRE + src + '\n' + code + '\nassert bqm_table(new) == bqm_table(bqm) and new == bqm, (bqm_table(new), bqm_table(bqm))',
                      detail=dict(source=src, route=code))
+    # the vartype view (`.spin` / `.binary`) serialises through the Python fallback of to_numpy_vectors
+    other = 'SPIN' if bqm.vartype is dimod.BINARY else 'BINARY'
+    vcode = (f"view = bqm.{other.lower()}\nnew = dimod.BinaryQuadraticModel.from_serializable(json.loads(json.dumps(view.to_serializable())))\n"
+             f"want = bqm.change_vartype({other!r}, inplace=False)")
+    try:
+        envv = run_route(src, vcode)
+        okv = bqm_table(envv['new']) == bqm_table(envv['want'])
+        whatv = f"{bqm_table(envv['new'])!r} != {bqm_table(envv['want'])!r}"
+    except Exception as e:  # noqa
+        okv = False; whatv = f'{type(e).__name__}: {e}'
+    ctx.tick('bqm vartype view json'); ctx.case(('bqm view', src), nontrivial=len(bqm.variables) > 0)
+    if not okv:
+        ctx.fail('property', 'BQM vartype view json', 'tuple labels holding NumPy scalars / Fractions' if has_inner(bqm.variables) else 'nested tuple labels' if nested else 'labels',
+                 whatv, repro=PRE + src + '\n' + vcode + '\nassert bqm_table(new) == bqm_table(want), (bqm_table(new), bqm_table(want))', detail=dict(source=src, route=vcode))
+    else:
+        view = envv['view']
+        vdoc = view.to_serializable()
+        vlabs = list(view.variables)
+        vorder = [vlabs.index(v) for v in iter_deserialize_variables(vdoc['variable_labels'])]
+        vquad = [(max(vlabs.index(u), vlabs.index(v)), min(vlabs.index(u), vlabs.index(v)), b) for u, v, b in view.iter_quadratic()]
+        lines.append('bqmvec 1 ' + (','.join(map(str, vorder)) or '-') + ' ' + ratl([view.get_linear(v) for v in vlabs]) + ' '
+                     + (';'.join(f'{a}:{b}:{rat(c)}' for a, b, c in vquad) or '-'))
+        expect.append('ok ' + ratl(vdoc['linear_biases']) + ' '
+                      + (';'.join(f'{a}:{b}:{rat(c)}' for a, b, c in zip(vdoc['quadratic_head'], vdoc['quadratic_tail'], vdoc['quadratic_biases'])) or '-'))
+        meta.append(('BQM vartype view vectors (Python fallback)', src))
     # (i) the vectors form against the model
     doc = bqm.to_serializable()
     labs = list(bqm.variables)
@@ -482,7 +507,7 @@ def check_labels(ctx, r, lines, expect, meta):
 def check_coo(ctx, r, lines, expect, meta):
     vt = r.choice(['SPIN', 'BINARY'])
     n = r.randint(0, 5)
-    labels = r.sample([0, 1, 2, 3, 5, 8, 13], n)
+    labels = r.sample(r.choice([[0, 1, 2, 3, 5, 8, 13], [3, 4, 7, 10, 11, 20], [1, 2, 4, 100, 101, 7], [5, 6, 7, 8, 9, 10]]), n)      # gaps, not starting at 0
     lin = {v: r.choice([0.0, 0.125, -1.5, 2.0, 0.75, -3.25, 1e-7]) for v in labels if r.random() < .8}
     quad = {}
     for i in range(n):
@@ -507,6 +532,21 @@ def check_coo(ctx, r, lines, expect, meta):
                  'assert new.vartype is bqm.vartype and {v: R(b) for v, b in new.linear.items() if R(b)} == {v: R(b) for v, b in bqm.linear.items() if R(b)} '
                  'and {frozenset(k): R(b) for k, b in new.quadratic.items() if R(b)} == {frozenset(k): R(b) for k, b in bqm.quadratic.items() if R(b)}, new',
                  detail=dict(source=src))
+    # the vartype header / argument logic against the model, incl. a disagreeing argument and a missing vartype
+    for arg in (None, 'SPIN', 'BINARY'):
+        for h in (True, False):
+            text = coo.dumps(bqm, vartype_header=h)
+            try:
+                got_vt = 'ok ' + coo.loads(text, vartype=arg).vartype.name
+            except ValueError:
+                got_vt = 'err'
+            want_vt = ('err' if (arg is None and not h) or (arg is not None and h and arg != vt) else 'ok ' + (arg or vt))
+            ctx.tick('coo vartype header')
+            if got_vt != want_vt:
+                ctx.fail('property', 'coo.loads', f'vartype argument {arg} / header {h}', f'{got_vt} but expected {want_vt}',
+                         repro=PRE + src + f"\ntry:\n    r = 'ok ' + coo.loads(coo.dumps(bqm, vartype_header={h}), vartype={arg!r}).vartype.name\nexcept ValueError:\n    r = 'err'\nassert r == {want_vt!r}, r",
+                         detail=dict(source=src))
+            lines.append(f"coovt {arg or '-'} {vt if h else '-'}"); expect.append(got_vt); meta.append(('coo vartype header', src))
     # writer against the model: the triplets (u, v, millionths)
     text = coo.dumps(bqm)
     trip = []
